@@ -228,7 +228,7 @@ def uses_all(rng, g, m, names):
 
 
 def gen_doc(rng, *, stratum: str):
-    """stratum: exact | float | keywords | mixed | srefkw | compkw | initname | digits | gennames | rewrite | gencollide | sparse | nearequal | idcollide | boolnum | boundary | shadow"""
+    """stratum: exact | float | keywords | mixed | srefkw | compkw | initname | digits | gennames | rewrite | gencollide | sparse | nearequal | idcollide | boolnum | boundary | shadow | selfapply"""
     floaty = stratum == "float"
     GM.SMOOTH = stratum == "digits"
     kw = stratum == "keywords"
@@ -262,7 +262,7 @@ def gen_doc(rng, *, stratum: str):
     if stratum == "shadow":
         # an id that is a usable Python name but means something in the generated module: a builtin the printed
         # bodies call, a module they reach into
-        pids[0] = rng.choice(SHADOW_IDS)
+        pids[0] = SHADOW_IDS[next(_shadow_turn) % len(SHADOW_IDS)]  # every id in turn, whatever the seed
     params, inits, rules = [], [], []
     const_ps = []
     raw = {}
@@ -312,6 +312,16 @@ def gen_doc(rng, *, stratum: str):
         body = uses_all(rng, g, g.num(2), ps)
         fundefs.append({"id": fid, "params": ps, "body": body})
         funs.append((fid, len(ps)))
+    if stratum == "selfapply":
+        # a function definition applied to its own result: the importer's sympy terms hold unevaluated nestings
+        # (Abs(Abs(k))) that any later substitution re-evaluates (F-C17-15)
+        body = rng.choice([["AST_FUNCTION_ABS", [["AST_DIVIDE", [["ci", "a"], ["AST_PLUS", [["AST_FUNCTION_ABS", [["ci", "a"]]], ["cn", "1"]]]]]]],
+                           ["AST_PLUS", [["AST_FUNCTION_ABS", [["ci", "a"]]], ["cn", "1"]]],
+                           ["AST_FUNCTION_MAX", [["AST_FUNCTION_ABS", [["ci", "a"]]], ["cn", "1/2"]]]])
+        fundefs.append({"id": "selfap", "params": ["a"], "body": body})
+        funs.append(("selfap", 1))
+        params.append(["nest", None])
+        rules.append(["nest", ["call", "selfap", [["call", "selfap", [["ci", rng.choice(const_ps)]]]]]])
     sym = [s["id"] for s in species] + [p for p, _ in params if p not in [r[0] for r in rules]] + [c for c, _ in comps]
     # rule-defined parameters
     rule_ps = []
@@ -504,7 +514,7 @@ def gen_doc(rng, *, stratum: str):
         params.append([a_, "2"])
         params.append([b_, "5"])
         rxns[0]["law"] = ["AST_PLUS", [rxns[0]["law"], ["AST_TIMES", [["ci", a_], ["AST_PLUS", [["ci", b_], ["cn", "1"]]]]]]]
-    if stratum == "shadow" and rng.random() < 0.4:
+    if stratum == "shadow" and next(_shadow_turn2) % 3 == 2:
         # the same for the id of a reaction: its function is defined at module level under that name (F-C17-14)
         rxns[-1]["id"] = rng.choice([i for i in SHADOW_IDS if i != pids[0]])
     finding = {"mixed": "F-C17-4", "srefkw": "F-C17-5", "compkw": "F-C17-6", "idcollide": "F-C17-10",
@@ -1205,7 +1215,7 @@ def judge_doc(ctx, case, R, M, S=None, what="imported model differs from the doc
         # exact only for parameters that carry one of the long literals and are not overridden by an assignment
         assigned = {k for k, _ in case["doc"].get("inits", [])} | {k for k, _ in case["doc"].get("rules", [])}
         exact = set(case.get("raw") or {}) - assigned if case["kind"] == "digits" else ()
-        Rv = snap(R, S, stats, exact_init=exact, tight=case["kind"] not in ("float", "digits", "mixed", "suite"))
+        Rv = snap(R, S, stats, exact_init=exact, tight=case["kind"] not in ("float", "digits", "mixed", "suite", "selfapply"))
     for k, v in stats.items():
         ctx.hist[f"numbers {k}"] = ctx.hist.get(f"numbers {k}", 0) + v
     finding = case["finding"]
@@ -1463,9 +1473,9 @@ def check_sessions(ctx, cases, Rs):
 
 def check_glue(ctx, cases, Rs):
     """mxlpy's own stage on every imported document: `genModule (importSym <pysbml model>)` against the module text"""
-    # (stratum `shadow`: the renaming of a parameter that would shadow a name the body calls happens in the text
-    #  generation of `sympy_to_python_fn`, below the level of `genModule`, whose bodies are opaque: numbers only there)
-    todo = [(c, R["glue"]) for c, R in zip(cases, Rs) if "glue" in R and c["kind"] != "shadow"]
+    # (stratum `shadow` included: the names each printed body calls travel with the abstraction, `shadowRename` gives the
+    #  parameter names of the written functions)
+    todo = [(c, R["glue"]) for c, R in zip(cases, Rs) if "glue" in R]
     for c, R in zip(cases, Rs):
         if "glue_err" in R:
             ctx.violation({k: c.get(k) for k in ("kind", "doc", "states", "watch", "stem", "raw", "finding")}, R["glue_err"],
@@ -1545,11 +1555,12 @@ def setup(ctx):
 def strata(ctx):
     n = ctx.n(1, 32)
     return [("exact", 110 * n), ("float", 60 * n), ("keywords", 40 * n), ("initname", 15 * n), ("mixed", 15 * n),
-            ("srefkw", 12 * n), ("compkw", 6 * n), ("digits", 12 * n), ("gennames", 24 * n), ("rewrite", 20 * n), ("gencollide", 24 * n), ("sparse", 12 * n), ("nearequal", 24 * n), ("idcollide", 6 * n), ("boolnum", 6 * n), ("boundary", 20 * n), ("shadow", 12 * n)]
+            ("srefkw", 12 * n), ("compkw", 6 * n), ("digits", 12 * n), ("gennames", 24 * n), ("rewrite", 20 * n), ("gencollide", 24 * n), ("sparse", 12 * n), ("nearequal", 24 * n), ("idcollide", 6 * n), ("boolnum", 6 * n), ("boundary", 20 * n), ("shadow", 16 * n), ("selfapply", 9 * n)]
 
 
 #: ids the generated module uses itself: builtins its function bodies call, modules they reach into
 SHADOW_IDS = ["abs", "max", "min", "math"]
+_shadow_turn, _shadow_turn2 = itertools.count(), itertools.count()
 PAIR_STEMS = [("Model-1", "model 1"), ("A", "a"), ("m.v2", "mv2"), ("x", "x"), ("my  model", "my-model")]
 
 
@@ -1578,8 +1589,8 @@ def run(ctx):
     for _ in range(ctx.n(24, 240)):
         a, b = gen_doc(ctx.rng, stratum="exact"), gen_doc(ctx.rng, stratum="exact")
         a["pair_stems"] = b["pair_stems"] = ctx.rng.choice(PAIR_STEMS)
-        if ctx.rng.random() < 0.15:
-            b = dict(a)  # the same content under the other stem: same digest, same code
+        if ctx.rng.random() < 0.25:
+            b = dict(a)  # the same content under the other stem / the same stem in another directory: same digest, same code
         pairs.append((a, b))
     Ma = lean_docs(ctx, [a for a, _ in pairs])
     Mb = lean_docs(ctx, [b for _, b in pairs])
@@ -1592,9 +1603,14 @@ def run(ctx):
             ctx.violation(case, R, "reading two documents in one session failed")
             continue
         Sa, Sb = spec_numbers(a), spec_numbers(b)
-        S = {"a": Sa, "b": Sb, "a_again": Sa, "a_source_ok": True, "b_source_ok": True}
+        # digest naming (C17_session_digest_naming): stems that normalise alike share a module exactly when the content is the same
+        same = a["doc"] == b["doc"]
+        sub = ("same content, " if same else "different content, ") + ("same stem" if a["pair_stems"][0] == a["pair_stems"][1] else "stems normalise alike")
+        ctx.hist[f"pair: {sub}"] = ctx.hist.get(f"pair: {sub}", 0) + 1
+        S = {"a": Sa, "b": Sb, "a_again": Sa, "a_source_ok": True, "b_source_ok": True, "same_module": same}
         Rv = {"a": snap(R["a"], Sa), "b": snap(R["b"], Sb), "a_again": snap(R["a_again"], Sa),
-              "a_source_ok": R["a_source_ok"], "b_source_ok": R["b_source_ok"]}
+              "a_source_ok": R["a_source_ok"], "b_source_ok": R["b_source_ok"],
+              "same_module": R["modules"][0] == R["modules"][1]}
         # the Lean session model (Model/C17Session.lean) on what was observed: module names, and whether A's file is intact
         Mv = None
         if ctx.driver_ok:
@@ -1604,7 +1620,8 @@ def run(ctx):
             if ms["intact"][0][0] != R["a_file_intact"]:
                 ctx.add_drift(case, R["a_file_intact"], ms["intact"][0], "the file of the first model after the second read: session model differs")
             Mv = dict(Rv, a_source_ok=Rv["a_source_ok"] if ms["intact"][0][0] else False,
-                      b_source_ok=Rv["b_source_ok"] if ms["intact"][1][0] else False)
+                      b_source_ok=Rv["b_source_ok"] if ms["intact"][1][0] else False,
+                      same_module=ms["handles"][0] == ms["handles"][1])
         ctx.judge(case, Rv, S, Mv, what="a second document read in the same session interferes with the first model")
     check_stems(ctx)
     check_free_name(ctx)
